@@ -1,4 +1,4 @@
-CONSTANTS MaxL = 7
+CONSTANTS MaxL = 8
   Cfgs = {"one", "two", "err", "pal", "rcpair", "pool", "palerr", "iupac"}
 INIT Init
 NEXT Next
